@@ -85,7 +85,15 @@ def worker_main(argv):
     mod = load_monitor(prop_id)
     cases = mod.gen_cases(tier, seed)
     with open(outfile, 'w') as out:
-        run_cases_local(mod, cases, range(k, len(cases), n), out, tier)
+        if isinstance(cases, list):
+            run_cases_local(mod, cases, range(k, len(cases), n), out, tier)
+        else:
+            # lazy generator: keep only this shard's cases
+            mine = {}
+            for idx, case in enumerate(cases):
+                if idx % n == k:
+                    mine[idx] = case
+            run_cases_local(mod, mine, sorted(mine), out, tier)
 
 
 def main(argv=None):
@@ -126,7 +134,15 @@ def check(mod, prop_id, tier, seed, nworkers, write_evidence=True):
     t0 = time.time()
     os.environ.setdefault('PYTHONHASHSEED', '0')
     cases = mod.gen_cases(tier, seed)
-    ncases = len(cases)
+    if not isinstance(cases, list):
+        first, ncases = None, 0
+        for case in cases:
+            if first is None:
+                first = case
+            ncases += 1
+        cases = [first]
+    else:
+        ncases = len(cases)
     nworkers = max(1, min(nworkers, ncases))
     work = tempfile.mkdtemp(prefix='pv-%s-' % prop_id)
     env = dict(os.environ)
